@@ -235,8 +235,14 @@ pub fn run(tier: Tier) -> i32 {
                 let (total, m) = items[i as usize];
                 let prog = grow(total);
                 let e = enc::encode(3, 0, 2, 4096, &prog);
-                let file = enc::lzma_file(3, 0, 2, 4096, Some(total as u64), &e.payload);
-                let opts = Opts { memlimit: Some(m), ..Opts::default() };
+                let (file, opts) = if i % 2 == 0 {
+                    (enc::lzma_file(3, 0, 2, 4096, Some(total as u64), &e.payload), Opts { memlimit: Some(m), ..Opts::default() })
+                } else {
+                    let mut f = enc::lzma_header(3, 0, 2, 4096, None);
+                    f.truncate(5);
+                    f.extend_from_slice(&e.payload);
+                    (f, Opts { memlimit: Some(m), size: crate::cases::SizeOpt::Provided(Some(total as u64)), ..Opts::default() })
+                };
                 let need = total.min(4096) as u64;
                 let g = stream_graph::explore(&ctx, &file, &opts, &stream_graph::Mode::Equivalence, &format!("{} output bytes, limit {} (need {})", total, m, need));
                 ctx.eval(g.edges);
